@@ -18,6 +18,7 @@ func init() {
 		ruleMetaRemoveCovers(r, "C04.RM", k)
 		ruleMetaTypes(r, "C04.TYPES", k)
 		ruleMetaKey(r, "C04.KEY", k)
+		ruleFilterBuilders(r, "C04.BUILD")
 		r.FloorCheck("C04.OPS", 15)
 		r.FloorCheck("C04.LOGIC", 4)
 	})
